@@ -153,14 +153,35 @@ func TestVerifC14(t *testing.T) {
 			}
 		}
 		nOps := 4 + rng.Intn(12)
+		// every fifth session starts at the edge of the precomputed keys: the key is registered at c, the
+		// push of message c+W is opened (which derives key c+W+1 ahead of the chain key), the log then
+		// delivers message c+W+1 BEFORE the older ones, and the push of that same message follows
+		// (op kind, message index or announcement index)
+		var script [][2]int
+		if it%5 == 2 && W < 100 {
+			c0 := rng.Intn(3)
+			script = [][2]int{{0, c0}, {6, c0 + W}, {2, c0 + W + 1}, {6, c0 + W + 1}}
+			if nOps < len(script)+2 {
+				nOps = len(script) + 2
+			}
+		}
 		for j := 0; j < nOps; j++ {
 			d := rng.Intn(nSenders)
-			s := senders[d]
 			k := 1 + rng.Intn(nMsg)
+			x := rng.Intn(12)
+			c := rng.Intn(3)
+			if j < len(script) {
+				d, x = 0, script[j][0]
+				if x == 0 {
+					c = script[j][1]
+				} else {
+					k = script[j][1]
+				}
+			}
+			s := senders[d]
 			cidNum := (d+1)*100000 + k
-			switch x := rng.Intn(12); {
+			switch {
 			case x < 2:
-				c := rng.Intn(3)
 				err := r.RegisterChainKey(ctx, s.g, s.dev, s.ann[c])
 				ops = append(ops, fmt.Sprintf("PReg %d %d", d+1, c))
 				obs = append(obs, "PDone")
